@@ -80,12 +80,17 @@ Qed.
 Definition reach_test (itv start base num : Z) : bool :=
   let g := Z.gcd itv base in (g =? 1) || ((num - start) mod g =? 0).
 
+(* the filter of __construct_byset after fix e1e7505: members outside 0..base-1 are skipped, then the gcd test *)
+Definition keep_test (itv start base num : Z) : bool :=
+  (0 <=? num) && (num <? base) && reach_test itv start base num.
+
 Lemma construct_byset_ok : forall itv start l base c, construct_byset itv start l base = Ok c ->
-  c = filter (reach_test itv start base) l /\ c <> [].
+  c = filter (keep_test itv start base) l /\ c <> [].
 Proof.
-  intros itv start l base c. unfold construct_byset. fold (reach_test itv start base).
-  destruct (filter (reach_test itv start base) l) eqn:E; [discriminate|].
-  intro H. inversion H. split; [reflexivity|discriminate].
+  intros itv start l base c H. unfold construct_byset in H. cbv zeta in H.
+  match type of H with context[filter ?f l] => change f with (keep_test itv start base) in H end.
+  destruct (filter (keep_test itv start base) l) eqn:E; [discriminate H|].
+  inversion H. split; [reflexivity|discriminate].
 Qed.
 
 (* a value the cursor can take (start + j steps, reduced) is in the stored set iff it was supplied *)
@@ -95,8 +100,10 @@ Lemma constructed_mem : forall itv start l base c x j, 0 < base -> 0 < itv -> 0 
 Proof.
   intros itv start l base c x j Hb Hi Hj Hc Hx. destruct (construct_byset_ok _ _ _ _ _ Hc) as [-> _].
   rewrite memZ_sort_set'.
-  assert (Hr : reach_test itv start base x = true).
-  { unfold reach_test. apply (construct_byset_reachable itv start base x Hb Hi).
+  assert (Hr : keep_test itv start base x = true).
+  { unfold keep_test. pose proof (Z.mod_pos_bound (start + j * itv) base Hb) as B. rewrite <- Hx in B.
+    replace (0 <=? x) with true by lia. replace (x <? base) with true by lia. cbn [andb].
+    unfold reach_test. apply (construct_byset_reachable itv start base x Hb Hi).
     exists j. split; [assumption|]. rewrite Hx. rewrite Z.mod_mod by lia. reflexivity. }
   destruct (memZ x l) eqn:E.
   - apply memZ_In. apply filter_In. split; [apply memZ_In; assumption|assumption].
